@@ -34,7 +34,9 @@ def families(run, rng, quick):
     multi = [c for c in cs if c["abs"].get("multi")]
     out.append(("plurals", multi + [c for c in take(cs) if not c["abs"].get("multi")][: (40 if quick else 400)], "Trace_Plurals", "Trace_Plurals.cfg", {"ORACLE": oracle}))
     cs, _ = loadfam.gen_cases(run, "MC_Ranges", "MC_Ranges_quick.cfg")
-    out.append(("ranges", take(cs), "Trace_Ranges", "Trace_Ranges.cfg", {}))
+    # (the sample always holds declarations of the listed known finding, so that it is re-examined on every run)
+    big = [c for c in cs if _uses_big_u64_number(c)][:2]
+    out.append(("ranges", big + [c for c in take(cs) if not _uses_big_u64_number(c) or c not in big], "Trace_Ranges", "Trace_Ranges.cfg", {}))
     vs, _ = loadfam.gen_cases(run, "MC_Value", "MC_Value_quick.cfg")
     out.append(("values", c01.project_cases(run, take(vs), per_project=60), "Trace_Value", "Trace_Value.cfg", {}))
     return out
